@@ -166,7 +166,7 @@ ElemElement::startElement(StylesheetExecutionContext&       executionContext) co
 
         const XalanDOMString::size_type     indexOfNSSep = indexOf(elemName, XalanUnicode::charColon);
 
-        const bool  havePrefix = indexOfNSSep == len ? false : true;
+        bool    havePrefix = indexOfNSSep == len ? false : true;
 
         const GetCachedString   prefixGuard(executionContext);
 
@@ -175,6 +175,25 @@ ElemElement::startElement(StylesheetExecutionContext&       executionContext) co
         if (havePrefix == true)
         {
             substring(elemName, prefix, 0, indexOfNSSep);
+        }
+
+        if (havePrefix == true &&
+            namespaceLen > 0 &&
+            (equals(prefix, DOMServices::s_XMLNamespace) == true ||
+             (equals(prefix, DOMServices::s_XMLString) == true &&
+              equals(elemNameSpace, DOMServices::s_XMLNamespaceURI) == false)))
+        {
+            // The prefixes xmlns and xml cannot be bound to the requested
+            // namespace, so make it the default namespace of the element.
+            elemName.erase(0, indexOfNSSep + 1);
+
+            prefix.clear();
+
+            havePrefix = false;
+        }
+
+        if (havePrefix == true)
+        {
 
             const XalanDOMString* const     theNamespace =
                 getNamespacesHandler().getNamespace(prefix);
